@@ -567,13 +567,16 @@ impl<B: FA, H: HA<B> + Sync> SubCheck for Elems<B, H> {
         20
     }
     fn rule(&self) -> String {
-        "element lists of every length 0..=40 (uniform over lengths), elements from C07's operand sources (boundary residues, structured and non-canonical internal values, uniform); hash_elements of the base typing = reference definition on the residues = quadratic typing (even lengths) = cubic typing (multiples of 3, where the cubic extension exists) = the same residues rebuilt canonically; determinism; list != list || 0; non-trivial = some element is a boundary value or has a non-canonical internal value; distinct by list".into()
+        "element lists of every length 0..=40 (uniform over lengths; 40 of 43 cases) and long lists of 2^k-1, 2^k, 2^k+1 elements for 2^k = 64..2048 and uniform lengths up to 2100, elements from C07's operand sources (boundary residues, structured and non-canonical internal values, uniform); hash_elements of the base typing = reference definition on the residues = quadratic typing (even lengths) = cubic typing (multiples of 3, where the cubic extension exists) = the same residues rebuilt canonically; determinism; list != list || 0; non-trivial = some element is a boundary value or has a non-canonical internal value; distinct by list".into()
     }
     fn required_labels(&self, _t: Tier) -> Vec<String> {
         (0..=40).map(|n| format!("len={n}")).collect()
     }
     fn strategy(&self, _tier: Tier) -> BoxedStrategy<ElemCase> {
-        (0usize..=40)
+        // mostly short lists (every length around the rate boundaries), and long ones around the sizes at which
+        // an implementation may switch buffers or strategies (2^k - 1, 2^k, 2^k + 1 elements up to 2049)
+        let long = prop::sample::select(vec![63usize, 64, 65, 127, 128, 129, 255, 256, 257, 511, 512, 513, 1023, 1024, 1025, 1535, 1536, 2047, 2048, 2049]);
+        prop_oneof![40 => 0usize..=40, 2 => long, 1 => 41usize..=2100]
             .prop_flat_map(|n| prop::collection::vec(src_strategy::<B>(), n))
             .prop_map(|els| ElemCase { els })
             .boxed()
